@@ -128,6 +128,12 @@ Definition pipeline_refuses (ls : list (option nat)) (ps : list pauli) : bool :=
       property C13) — a function argument.  Everything else is the C05 model (build1, optimise, the partition table)
       and the C06 vocabulary (part, E_exp, Qmean).
    --------------------------------------------------------------------------------------------- *)
+(* well-formed lookup tables of a partition: C06's locs_ok (every location inside its group) AND no observable without
+   a location — np.mean([]) is nan in Python while the model's Qmean [] is 0/0 = 0, so the composition theorems exclude
+   it (a real ObservableCollection gives every sub-observable at least one location; Corr's lookup_ok checks it) *)
+Definition locs_wf (p : Reconstruct.part) : Prop :=
+  Reconstruct.locs_ok p /\ forall locs, In locs (Reconstruct.plookup p) -> locs <> [].
+
 Definition empty_mcirc : mcirc := mkMC 0 0 [] [].
 Definition empty_pinfo : pinfo := mkPI empty_mcirc [] (Some []).
 Definition empty_ogroup : ogroup := mkOG [] [].
